@@ -325,7 +325,8 @@ tzm_find(tzmap_t m, const char *mname)
 		p = tp;
 		/* now unroll a strcmp */
 		for (; *mp && *mp == *tp; mp++, tp++);
-		if (*mp - *tp < 0) {
+		/* keys are sorted bytewise, as unsigned chars that is */
+		if ((unsigned char)*mp < (unsigned char)*tp) {
 			/* use lower half */
 			ep = (const znoff_t*)p - 1U;
 		} else {
@@ -337,7 +338,7 @@ tzm_find(tzmap_t m, const char *mname)
 			/* ... and on to the next znoff_t alignment */
 			op = (const znoff_t*)ALIGN_TO(znoff_t, tp - 1U) + 1U;
 
-			if (*mp - *tp > 0) {
+			if ((unsigned char)*mp > (unsigned char)*tp) {
 				/* use upper half */
 				sp = op + 1U;
 			} else {
